@@ -588,6 +588,7 @@ func storeReadBack(r *core.Run) {
 		cons := tmtypes.NewConsensusState(time.Unix(1700000000, 0).UTC(), []byte("root-bytes-0123456789abcdefghijkl"), make([]byte, 32))
 		for _, c := range clients {
 			heights := map[string]clienttypes.Height{}
+			ptWritten := map[string]uint64{} // processed time last written per height
 			store := ck.ClientStore(ctx, c.name)
 			for i := 0; i < 60; i++ {
 				h := core.GenHeight(rng)
@@ -605,10 +606,16 @@ func storeReadBack(r *core.Run) {
 					// vocabulary: such a consensus-state key looks like a key of another kind to suffix / prefix matching
 					h = heightSpelling(rng, keyWords[i-3], (round+i)%2 == 0)
 				}
+				if i >= 50 && i < 56 {
+					// height bytes that a path cleaner would rewrite: "/x/" vs "//x", "/.." and "/./" inside the 16 raw bytes
+					h = clienttypes.NewHeight(uint64(round%3), []uint64{0x2f012f, 0x2f2f01, 0x2f2e2e, 0x012f2e2e, 0x2f2e2f, 0x2e2e2f41}[i-50])
+				}
 				heights[h.String()] = h
 				ck.SetClientConsensusState(ctx, c.name, h, cons)
 				if c.typ == exported.Tendermint {
-					tmtypes.SetProcessedTime(store, h, 1+uint64(rng.Int63()))
+					pt := 1 + uint64(rng.Int63())
+					ptWritten[h.String()] = pt
+					tmtypes.SetProcessedTime(store, h, pt)
 					tmtypes.SetIterationKey(store, h)
 				}
 				r.Eval(fmt.Sprintf("cons/%s/%s", c.typ, h), true)
@@ -665,10 +672,14 @@ func storeReadBack(r *core.Run) {
 				gotPT := map[string]bool{}
 				err, _ = core.Catch(func() error {
 					tmtypes.IterateProcessedTime(store, func(key, val []byte) bool {
+						// the stored key is read back by its documented layout ("consensusStates/" + 16 raw big-endian bytes +
+						// "/processedTime"), not through the builder that wrote it
 						known := false
-						for _, h := range heights {
-							if bytes.Equal(key, tmtypes.ProcessedTimeKey(h)) {
-								gotPT[h.String()] = true
+						const pre, suf = "consensusStates/", "/processedTime"
+						if len(key) == len(pre)+16+len(suf) && bytes.HasPrefix(key, []byte(pre)) && bytes.HasSuffix(key, []byte(suf)) {
+							ph := clienttypes.NewHeight(binary.BigEndian.Uint64(key[len(pre):]), binary.BigEndian.Uint64(key[len(pre)+8:]))
+							if _, ok := heights[ph.String()]; ok {
+								gotPT[ph.String()] = true
 								known = true
 							}
 						}
@@ -680,6 +691,13 @@ func storeReadBack(r *core.Run) {
 					return nil
 				})
 				reportHeights(r, cid, "tendermint.IterateProcessedTime", heights, gotPT, err)
+				// two different heights never share a processed-time entry: each reads back the value written for it
+				for hs, want := range ptWritten {
+					if got, ok := tmtypes.GetProcessedTime(store, heights[hs]); !ok || got != want {
+						r.Violation(cid, "readback/tendermint.GetProcessedTime/not-the-value-written-for-this-height", map[string]interface{}{"height": hs, "written": want, "read": got, "found": ok})
+						break
+					}
+				}
 				// the iteration entry of every height still holds that height's consensus-state key after all the others were written
 				for _, h := range heights {
 					want := append([]byte("consensusStates/"), make([]byte, 16)...)
